@@ -353,6 +353,20 @@ class Iter:
         return (self, First(key=key, default=default))
 
 
+class _KeyFunc:
+    """Evaluates to a function which runs *spec* on an item as part of
+    the ongoing glom call, so that scope, mode and error reporting of
+    the key spec are those of any other sub-spec.
+    """
+    __slots__ = ('spec',)
+
+    def __init__(self, spec):
+        self.spec = spec
+
+    def glomit(self, target, scope):
+        return lambda item: scope[glom](item, self.spec, scope)
+
+
 class First:
     """Get the first element of an iterable which matches *key*, if there
     is one, otherwise return *default* (``None`` if unset).
@@ -373,8 +387,7 @@ class First:
         self._spec = key
         self._default = default
 
-        spec_glom = Spec(Call(partial, args=(Spec(self._spec).glom,), kwargs={'scope': S}))
-        self._first = Call(first, args=(T,), kwargs={'default': default, 'key': spec_glom})
+        self._first = Call(first, args=(T,), kwargs={'default': default, 'key': _KeyFunc(self._spec)})
 
     def glomit(self, target, scope):
         return self._first.glomit(target, scope)
